@@ -58,7 +58,9 @@ NAMES = ["Table 1", "T x", "Données", "表", "a b c", "X"]
 CAPTIONS = ["hello", "", "Caption", "two\nlines", "ünï"]
 FIXTURES_QUICK = ["issue-69b.numbers", "test-1.numbers", "test-extra-borders.numbers", "issue-43.numbers", "test-10.numbers",
                   "issue-51.numbers", "test-titles.numbers", "issue-69.numbers", "issue-10.numbers",
-                  "custom-format-stress-template.numbers", "test-pivot.numbers", "issue-17.numbers"]
+                  "custom-format-stress-template.numbers", "test-pivot.numbers", "issue-17.numbers",
+                  # tables whose own default row height / column width differs from the library's 20 / 98
+                  "test-styles.numbers", "issue-77.numbers", "issue-7.numbers"]
 
 
 def cycle(doc):
@@ -192,9 +194,10 @@ def gen_script(rng, nr, nc, heavy=True):
     for _ in range(n):
         k = rng.random()
         if k < 0.22:
-            ops.append(["rowh", rng.randrange(nr), rng.randint(10, 120)])
+            # the library's own default sizes (20 / 98) and typical fixture defaults are special values for the write-back
+            ops.append(["rowh", rng.randrange(nr), rng.choice([20, 20, 98, 14, 16, 22]) if rng.random() < 0.25 else rng.randint(10, 120)])
         elif k < 0.44:
-            ops.append(["colw", rng.randrange(nc), rng.randint(30, 300)])
+            ops.append(["colw", rng.randrange(nc), rng.choice([98, 98, 20, 50, 65]) if rng.random() < 0.25 else rng.randint(30, 300)])
         elif k < 0.50:
             ops.append(["readrow", rng.randrange(nr)])
         elif k < 0.56:
